@@ -1,5 +1,6 @@
 """C09 -- CSV files with comment headers round-trip through write_csv / read_csv (writer/reader agreement)."""
 import ast
+import copy
 import re
 
 from ..core import AnalysisError
@@ -227,6 +228,34 @@ def under_test(node, text):
 
 def node_in(node, body):
     return any(node is x for s in body for x in ast.walk(s))
+
+
+class _Consts(ast.NodeTransformer):
+    """module-level constants (strings, compiled regular expressions) replaced by their value; a method of a compiled pattern
+    written as the module function on the pattern"""
+
+    def __init__(self, consts):
+        self.consts = consts
+
+    def visit_Name(self, n):
+        if isinstance(n.ctx, ast.Load) and n.id in self.consts:
+            return copy.deepcopy(self.consts[n.id])
+        return n
+
+    def visit_Call(self, n):
+        self.generic_visit(n)
+        f = n.func
+        if isinstance(f, ast.Attribute) and isinstance(f.value, ast.Call) and dotted(f.value.func) == "re.compile" and len(f.value.args) == 1 and \
+                not f.value.keywords and f.attr in ("sub", "search", "match", "split", "fullmatch", "findall"):
+            return ast.Call(func=ast.Attribute(value=ast.Name(id="re", ctx=ast.Load()), attr=f.attr, ctx=ast.Load()),
+                            args=[f.value.args[0]] + list(n.args), keywords=list(n.keywords))
+        return n
+
+
+def _with_consts(node, consts):
+    out = _Consts(consts).visit(copy.deepcopy(node))
+    ast.fix_missing_locations(out)
+    return out
 
 
 def run(rep):
@@ -611,9 +640,22 @@ def run(rep):
     rep.check(oknrow and pn[:2] == ["nrow", "ncol"], "R09.b", rel, "_csvhead", "'# nrow : {nrow}' and '# ncol : {ncol}' lines", "", line=ch.lineno)
     # comment lines: '# ' key ' : ' value with the value looked up under that key
     okseg = bool(segs)
+    def _pair_of_items(k_, v_):
+        """key and value are the two halves of one item of `<dict>.items()` (sorted or not)"""
+        if not (pq.call_named(k_, "getitem") and pq.call_named(v_, "getitem") and pq.same(k_[2][1], "0") and pq.same(v_[2][1], "1") and pq.same(k_[2][0], v_[2][0])):
+            return False
+        src = k_[2][0]
+        if not pq.call_named(src, "elem"):
+            return False
+        src = src[2][0]
+        while pq.call_named(src, "py.sorted") or pq.call_named(src, "py.list"):
+            if len(src) > 3:
+                return False
+            src = src[2][0]
+        return pq.call_named(src, ".items") and len(src[2]) == 1
     for x in segs:
         okseg = okseg and pq.call_named(x, "fstr") and len(x[2]) == 4 and x[2][0] == ('sym', "'# '") and x[2][2] == ('sym', "' : '") and \
-            pq.call_named(x[2][3], "getitem") and pq.same(x[2][3][2][1], x[2][1])
+            ((pq.call_named(x[2][3], "getitem") and pq.same(x[2][3][2][1], x[2][1])) or _pair_of_items(x[2][1], x[2][3]))
     rep.check(okseg, "R09.b", rel, "_csvhead", "comment lines are '# <key> : <comments[key]>'", "", line=ch.lineno)
     # nrow / ncol passed by the writer
     call = [n for n in ast.walk(w) if isinstance(n, ast.Call) and dotted(n.func) == "_csvhead"]
@@ -673,7 +715,7 @@ def run(rep):
         raise AnalysisError(f"{rel}: read_csv: header strip expression not found")
     WS = set(" \t\r\n\f\v")
     for ap in apps:
-        e = ap.args[0]
+        e = _with_consts(ap.args[0], mod.consts)
         bad, und, ops = [], [], []
         removes_hash = False
         while not (isinstance(e, ast.Name) and e.id == "line"):
